@@ -574,7 +574,7 @@ func verifPoisonObject(x any) {
 	case *typeValidator:
 		s.Path, s.In = mark, mark
 		s.Type = spec.StringOrArray{mark}
-		s.Nullable = false
+		s.Nullable = true // the loud value: a constructor which forgets to reset it lets null through
 		s.Format = mark
 		s.Options = nil
 	case *spec.Schema:
